@@ -214,6 +214,21 @@ impl<W: WorldSpec> Engine<W> {
             vio("C08", "rep-zero-generation", format!("{}: a generation counter is zero", name));
             return;
         }
+        // a position's generation never decreases (wrap only with the feature): a decrease is a
+        // reissued handle waiting to happen (C08)
+        {
+            let wrapping = self.cfg.wrapping;
+            let am = &mut self.ms[wid].archs[ai];
+            for (pos, (_, g)) in dump.slots.iter().enumerate() {
+                if let Some(old) = am.slot_gens.get(pos) {
+                    if *g < *old && !wrapping {
+                        vio("C08", "rep-generation-decreased", format!("{}: generation of position {} went {} -> {}", name, pos, old, g));
+                        return;
+                    }
+                }
+            }
+            am.slot_gens = dump.slots.iter().map(|(_, g)| *g).collect();
+        }
         // archetype version: never moves backwards and changes with every removal (wrap only with
         // the feature). The increment policy itself is not prescribed: the model adopts the
         // observed value, so a property-preserving change of policy cannot trip a prediction.
